@@ -299,6 +299,10 @@ class Gen:
                     extra.append(f"unsub:{self.rng.choice(far)}:{self.rng.choice([1, 1, 2])}")
                 if extra:
                     e = "[" + " ".join(([] if e == "[]" else e[1:-1].split()) + extra) + "]"
+            if self.p.get("setmax_in_handlers") and node is not None and e == "[]" and not self.nodes[node].get("eff_handler") \
+                    and self.rng.random() < 0.3:
+                # the handler reconfigures the height limit (allowed while handlers run, refused during propagation)
+                e = f"[setmaxheight:{self.rng.choice([128, 128, 160, 200, 300])}]"
             if e != "[]":
                 self.nodes[node]["eff_handler"] = True
             self.emit(f"subscribe {o} {len(self.subs)} {e}")
@@ -469,6 +473,9 @@ PROFILES = {
     # cutoffs that only suppress equal values: the subscription oracle compares delivered values with the reference
     "subs": dict(cutoffs=["eq", "never", "fn:0", "boxed:0"], weights=w(observe=7, obs_misc=16, write=12, stabilise=10, bind=3, cutoff=0),
                  obs_ops=["subscribe", "subscribe", "subscribe", "unsubscribe", "stateunsub", "clone", "drop", "disallow", "read", "onupdate"]),
+    "subsmax": dict(cutoffs=["eq", "never", "fn:0", "boxed:0"], setmax_in_handlers=True,
+                    weights=w(observe=7, obs_misc=16, write=12, stabilise=10, bind=3, cutoff=0),
+                    obs_ops=["subscribe", "subscribe", "subscribe", "unsubscribe", "clone", "drop", "read"]),
     # C08: closures and handlers that write and read variables
     "writes": dict(eff_prob=0.45, eff_in_templates=False, eff_in_handlers=True,
                    eff_kinds=["set", "update", "modify", "replace", "replacewith", "get", "get"],
